@@ -74,3 +74,4 @@ for f in sorted((V / 'known.d').glob('*.json')):
         kn.append(e)
 (V / 'known_findings.json').write_text(json.dumps({'findings': kn}, indent=1) + '\n')
 print('MANIFEST: %d checks, %d not_applicable; known findings: %d' % (len(checks), len(na), len(kn)))
+import subprocess, sys; subprocess.run([sys.executable, str(V / "tools" / "assemble_design.py")])
